@@ -378,8 +378,11 @@ def run(ctx):
         ann = next(placements(rng, shape, 1), None)
         if ann is None:
             continue
-        judge(ctx, shape, ann, {p: rng.choice(LEAF_TYPES) for p in leaves})
+        lt_ = {p: rng.choice(LEAF_TYPES) for p in leaves}
+        judge(ctx, shape, ann, lt_)
+        ctx.remember(judge, ctx, shape, ann, lt_)
     judge_corpus(ctx)
+    ctx.run_again()
     ctx.require('list_entrypoints_calls', 100)
     ctx.require('full_values', 100)
     ctx.require('entrypoint_arguments', 100)
